@@ -4,7 +4,8 @@
    math.hypot modelled by a square root correct to 2^-60), _track_move_params, the statement, and
    _update_axes. *)
 From Coq Require Import ZArith QArith Bool List String.
-From GS Require Import model.Num model.Builder proofs.BoundsProofs proofs.TrackProofs proofs.HooksProofs.
+From GS Require Import model.Num model.Builder proofs.FlagsProofs proofs.BoundsProofs proofs.MirrorProofs proofs.TrackProofs
+  proofs.HooksProofs proofs.ExtrudeProofs.
 Import ListNotations.
 Open Scope string_scope.
 
@@ -52,6 +53,55 @@ Theorem C20_length : forall q, (0 <= q)%Q ->
   (qsqrt q * qsqrt q <= q)%Q /\ (q < (qsqrt q + (1 # Pos.pow 2 60)) * (qsqrt q + (1 # Pos.pow 2 60)))%Q.
 Proof. exact qsqrt_bounds. Qed.
 Print Assumptions C20_length.
+
+(* the running total over whole histories.  With the bundled extrusion hook as the only hook and
+   absolute extrusion mode ([extruding]), for EVERY history of calls that contains no explicit E
+   reset (an E word on a rapid / G92 / G28 / probe), no change of extrusion mode and no change of
+   the hook list -- linear moves, bypass moves, interpolated paths, rapids, distance-mode switches
+   and every other call kind, accepted or cleanly rejected -- the remembered E at the end is the E
+   at the start plus (area / cross-section) x the XY length of every accepted linear move, where
+   the lengths are those of the (origin, target) pairs the hook was called with (C20_called_once,
+   C20_true_target: the true moves).  An E reset restarts the total at the given value
+   (C20_e_reset); the E word of each G1 line is the rounding of this total (C07_params). *)
+Theorem C20_running_total : forall dp id area cross cs s, Forall cmd_ok3 cs -> Forall e_neutral cs ->
+  extruding id area cross s -> clean_run dp s cs ->
+  (e_total (final dp s cs) == e_total s + area * sum_calls (all_good_calls (run dp s cs)) / cross)%Q /\
+  extruding id area cross (final dp s cs).
+Proof. exact history_total. Qed.
+Print Assumptions C20_running_total.
+
+Theorem C20_running_total_step : forall dp s c id area cross, cmd_ok3 c -> e_neutral c ->
+  extruding id area cross s -> clean s (step1 dp s c) ->
+  (e_total (st_of (step1 dp s c)) == e_total s + area * sum_calls (good_calls (step1 dp s c)) / cross)%Q /\
+  extruding id area cross (st_of (step1 dp s c)).
+Proof. exact step_total. Qed.
+
+(* restart: an accepted G92 with an E word sets the remembered E to that value *)
+Theorem C20_e_reset : forall dp s r ps v, params_ok ps -> pget "E" ps = Some v ->
+  err_of (step1 dp s (SetAxis r ps)) = None -> e_total (st_of (step1 dp s (SetAxis r ps))) = xq v.
+Proof. exact set_axis_resets. Qed.
+
+(* non-vacuity of the running total: linear moves in both distance modes, a bypass move, a path, a
+   rapid, a cleanly rejected move (hook called, nothing added), other calls in between *)
+Example C20_running_total_nonvacuous :
+  let s0 := final 5 init [AddHook (HExtrude 2 (1 # 8) (3 # 1))] in
+  let cs := [Move Linear (mkreq (Some (Fin 3)) (Some (Fin 4)) None) [("E", Fin 77)];
+             Move Rapid (mkreq None None (Some (Fin 2))) [];
+             SetDistance (Member Relative); SetFeed (Fin 600);
+             Move Linear (mkreq (Some (Fin 6)) (Some (Fin 8)) None) [];
+             Move Linear (mkreq (Some PInf) None None) [];
+             MoveAbs Linear (mkreq (Some (Fin 9)) (Some (Fin 16)) None) [];
+             Polyline [mkpt (Some 9) (Some 26) (Some 0); mkpt (Some 19) (Some 26) (Some 0)] []] in
+  extruding 2 (1 # 8) (3 # 1) s0 /\ Forall cmd_ok3 cs /\ Forall e_neutral cs /\ clean_run 5 s0 cs /\
+  e_total s0 = 0 /\ sum_calls (all_good_calls (run 5 s0 cs)) = 39 /\
+  cget "E" (cparams (final 5 s0 cs)) = Some (Fin (13 # 8)) /\
+  map (fun r => err_of r) (run 5 s0 cs) = [None; None; None; None; None; Some ValueErr; None; None].
+Proof.
+  split; [vm_compute; auto|]. split; [|split; [|split; [|vm_compute; repeat split]]].
+  - repeat constructor; cbn; try discriminate; try reflexivity; try tauto; intros H; inversion H; inversion H0.
+  - repeat constructor.
+  - vm_compute. repeat split; auto.
+Qed.
 
 (* non-vacuity: two hooks, absolute extrusion, a move, an E reset, a relative-mode bypass move *)
 Example C20_nonvacuous :
